@@ -32,10 +32,14 @@ const (
 	TDup         // construct the child once, use it twice: Combine(c, c)
 	TBreakable   // seq.Breakable(A): a Break raised inside A ends A normally
 	TContinuable // seq.Continuable(A): a Continue raised inside A ends A normally
+	// TRec is a term that CONTAINS ITSELF: self = Combine(Delay{ if cond { Combine(A, self) } else Normal }, B).
+	// One Combine VALUE is entered again while an earlier entry of it is still pending (its
+	// first half suspended in A), inside ONE iterator; cond is bounded, so it terminates.
+	TRec
 	nTK
 )
 
-var tkName = [...]string{"Bind", "BindRecv", "Delay", "Combine", "For", "While", "Loop", "Normal", "Break", "Continue", "Return", "ReturnValue", "Dup", "Breakable", "Continuable"}
+var tkName = [...]string{"Bind", "BindRecv", "Delay", "Combine", "For", "While", "Loop", "Normal", "Break", "Continue", "Return", "ReturnValue", "Dup", "Breakable", "Continuable", "Rec"}
 
 const nCtr = 4
 
@@ -146,6 +150,12 @@ func (t *Term) write(b *strings.Builder) {
 	case TDup, TBreakable, TContinuable:
 		b.WriteString("(")
 		t.A.write(b)
+		b.WriteString(")")
+	case TRec:
+		b.WriteString("(" + t.Cond.String() + ", ")
+		t.A.write(b)
+		b.WriteString(", ")
+		t.B.write(b)
 		b.WriteString(")")
 	case TFor:
 		b.WriteString("(" + t.Cond.String() + ", {" + stmts(t.Post) + "}, ")
@@ -268,6 +278,16 @@ func toSeq(t *Term, st *state) seq.Seq[int] {
 	case TDup:
 		a := toSeq(t.A, st)
 		return seq.Combine(a, a)
+	case TRec:
+		a, b := toSeq(t.A, st), toSeq(t.B, st)
+		var self seq.Seq[int]
+		self = seq.Combine(seq.Delay(func() seq.Seq[int] {
+			if st.cond(t.Cond) {
+				return seq.Combine(a, self)
+			}
+			return seq.Normal[int]()
+		}), b)
+		return self
 	case TBreakable:
 		return seq.Breakable(toSeq(t.A, st))
 	case TContinuable:
@@ -327,7 +347,7 @@ func construct(t *Term, st *state) *cnode {
 	switch t.K {
 	case TBind, TBindRecv, TReturnValue:
 		c.v = st.expr(t.Val)
-	case TCombine:
+	case TCombine, TRec:
 		c.a = construct(t.A, st)
 		c.b = construct(t.B, st)
 	case TDup:
@@ -367,6 +387,16 @@ func (r *refRun) exec(c *cnode) (sig, int) {
 	case TCombine, TDup:
 		if s, v := r.exec(c.a); s != sNormal {
 			return s, v
+		}
+		return r.exec(c.b)
+	case TRec:
+		if r.st.cond(t.Cond) {
+			if s, v := r.exec(c.a); s != sNormal {
+				return s, v
+			}
+			if s, v := r.exec(c); s != sNormal {
+				return s, v
+			}
 		}
 		return r.exec(c.b)
 	case TBreakable:
@@ -531,6 +561,10 @@ func (g *gen) term(depth int) *Term {
 	case TDelay:
 		t.Th = g.thunk(depth)
 	case TCombine:
+		t.A = g.term(depth + 1)
+		t.B = g.term(depth + 1)
+	case TRec:
+		t.Cond = g.cond()
 		t.A = g.term(depth + 1)
 		t.B = g.term(depth + 1)
 	case TDup, TBreakable, TContinuable:
